@@ -2,6 +2,7 @@ package main
 
 import (
 	"go/token"
+	"regexp"
 	"sort"
 	"strings"
 )
@@ -56,7 +57,7 @@ func ruleMakeSizes(c *Ctx) {
 					}
 					nonneg := sz.K >= 0
 					for a, cf := range sz.T {
-						if cf < 0 || !(strings.HasPrefix(a, "len(") || strings.HasPrefix(a, "cap(")) {
+						if cf < 0 || !(strings.HasPrefix(a, "len(") || strings.HasPrefix(a, "cap(") || isMaxWithZero(a)) {
 							nonneg = false
 						}
 					}
@@ -81,5 +82,30 @@ func ruleMakeSizes(c *Ctx) {
 		}
 		c.Check(bad == "", "makes:"+fn, p.Pos(fd), "every computed make() size is non-negative on its path", fn+": "+bad+" — on a deserialized tape whose entries point behind themselves this is a run-time panic (makeslice: len/cap out of range)", "a blob whose array start entry has an end offset before its own position")
 	}
+	// a package-level max() the sizes may rely on really is the maximum
+	if mfd := p.Func("max"); mfd != nil {
+		okMax := false
+		if sps, ok := p.SymPaths(mfd, 10, nil); ok && len(sps) == 2 {
+			okMax = true
+			for _, sp := range sps {
+				if len(sp.Ret) != 1 {
+					okMax = false
+					continue
+				}
+				r := sp.Ret[0].String()
+				gt := hasCond(sp, "P:a", token.GTR, "P:b")
+				le := hasCond(sp, "P:a", token.LEQ, "P:b")
+				if !(gt && r == "P:a" || le && r == "P:b") {
+					okMax = false
+				}
+			}
+		}
+		c.Check(okMax, "makes:max", p.Pos(mfd), "max(a, b) returns a when a > b and b otherwise", "the package's max() does not return the larger argument: sizes clamped with max(x, 0) can be negative", "")
+	}
 	c.MinCount("computed make() sizes examined", nMakes, 6)
 }
+
+var reMaxZero = regexp.MustCompile(`^max\((0,.*|.*,0)\)(#\d+)?$`)
+
+// isMaxWithZero: max(x, 0) — the builtin or the package's own two-argument max (C18.ryu compares that one with strconv's).
+func isMaxWithZero(a string) bool { return reMaxZero.MatchString(a) }
